@@ -228,6 +228,17 @@ fn shaped(seed: u64, shapes: &[(usize, usize)], all_pairs: bool) -> Vec<Case> {
 }
 
 pub fn run(ctx: &Ctx, rep: &Report) -> Meta {
+    // the same checks with all workers released from one barrier in a cold process (shared state under contention)
+    {
+        let cases = shaped(ctx.seed ^ 0xC0, &[(20, 20), (3, 40), (40, 3), (0, 0), (17, 33), (2, 2), (70, 1)], false);
+        let r = contend("contention", ctx.workers.max(4), ctx.tier.pick(2, 6), |t, round| {
+            let c = &cases[(t * 7 + round * 3) % cases.len()];
+            check(rep, "contention", c)
+        });
+        if let Err(f) = r {
+            rep.add_violation(f);
+        }
+    }
     let lim = ctx.tier.pick(3usize, 4usize);
     let mut small = vec![];
     for l in 0..=lim {
